@@ -1,9 +1,452 @@
 /-
-  QEModel.C19 — executable model for property C19 (stub; to be filled in).
+  QEModel.C19 — closed-form statistics.
+  Mirrors: quantecon/_inequality.py (lorenz_curve 10-53, gini_coefficient 56-83),
+  quantecon/_ecdf.py (ECDF.__call__), quantecon/distributions.py (BetaBinomial mean/var/skew/pdf),
+  quantecon/_arma.py (set_params 118-152, impulse_response 154-175, spectral_density 177-215),
+  quantecon/_filter.py (hamilton_filter 36-57), quantecon/_estspec.py (smooth 9-68 for the
+  rational windows 'flat' and 'bartlett', periodogram 71-111: the index set only).
+  External routines are replaced by their meaning: `np.sort` = insertion sort, `np.cumsum`,
+  `scipy.signal.dimpulse` = power-series division of a transfer function written in descending
+  powers of z (`tfImpulse`), `scipy.signal.freqz` = polynomial evaluation at `e^{-iw}` given as an
+  exact point `(c, -s)` of the unit circle, `np.linalg.solve` = exact Gauss–Jordan (`MatAlg.solve`),
+  `np.convolve(…, 'valid')`. Not modelled: FFT, `exp`, `sqrt`, the cosine windows.
 -/
 import QEModel.Base
+import QEModel.MatAlg
+import QEModel.C16
 namespace QE.C19
+open QE
 
-def handle (_toks : List String) : String := "bad-op"
+section arith
+variable {α : Type} [Zero α] [One α] [Add α] [Sub α] [Mul α] [Div α] [Neg α] [NatCast α]
+  [LT α] [LE α] [DecidableLT α] [DecidableLE α]
+
+/-- `abs` -/
+def absv (x : α) : α := if x < 0 then -x else x
+
+/-! ### gini_coefficient -/
+
+/-- `i_sum[i] = Σ_j |y_i − y_j|` (inner loop) -/
+def giniRowSum (y : List α) (yi : α) : α := (y.map fun yj => absv (yi - yj)).sum
+
+/-- `np.sum(i_sum)` -/
+def giniNum (y : List α) : α := (y.map (giniRowSum y)).sum
+
+/-- `2 * n * np.sum(y)` -/
+def giniDen (y : List α) : α := (1 + 1) * (y.length : α) * y.sum
+
+/-- `gini_coefficient(y)` (the quotient; a zero denominator raises in the code, see `handle`) -/
+def gini (y : List α) : α := giniNum y / giniDen y
+
+/-! ### lorenz_curve -/
+
+def insertSorted (x : α) : List α → List α
+  | [] => [x]
+  | y :: ys => if x ≤ y then x :: y :: ys else y :: insertSorted x ys
+
+/-- `np.sort` -/
+def sortL (l : List α) : List α := l.foldr insertSorted []
+
+/-- `np.cumsum` started from `acc` -/
+def cumsumFrom : α → List α → List α
+  | _, [] => []
+  | acc, x :: xs => (acc + x) :: cumsumFrom (acc + x) xs
+
+/-- `s = zeros(n+1); s[1:] = cumsum(sort(y))` -/
+def lorenzS (y : List α) : List α := 0 :: cumsumFrom 0 (sortL y)
+
+/-- `cum_people[i]` (index 0 is never written by the loop and stays 0) -/
+def lorenzPeople (y : List α) : List α :=
+  (List.range (y.length + 1)).map fun (i : Nat) => if i = 0 then 0 else (i : α) / (y.length : α)
+
+/-- `cum_income[i] = s[i] / s[n]` -/
+def lorenzIncome (y : List α) : List α :=
+  let s := lorenzS y
+  (List.range (y.length + 1)).map fun (i : Nat) => if i = 0 then 0 else s.getD i 0 / s.getD y.length 0
+
+/-- trapezoid area under the Lorenz curve (proof-side / spec helper) -/
+def lorenzArea (y : List α) : α :=
+  let L := lorenzIncome y
+  ((List.range y.length).map fun i => (L.getD i 0 + L.getD (i + 1) 0) / ((1 + 1) * (y.length : α))).sum
+
+/-! ### shorrocks_index, rank_size -/
+
+/-- `shorrocks_index(A) = (m − Σ_j a_jj)/(m − 1)`; `none` = the `ValueError` for a non-square matrix -/
+def shorrocks (A : List (List α)) : Option α :=
+  let m := A.length
+  if m ≠ (A.headD []).length then none
+  else some (((m : α) - ((List.range m).map fun i => (A.getD i []).getD i 0).sum) / ((m : α) - 1))
+
+/-- `size_data` of `rank_size`: `(−sort(−data))[:k]` with `k = int(len(data)·c)` supplied by the caller -/
+def rankSize (data : List α) (k : Nat) : List α := ((sortL data).reverse).take k
+
+/-! ### ECDF -/
+
+/-- `np.mean(observations <= a)` -/
+def ecdf (obs : List α) (a : α) : α :=
+  (((obs.filter fun o => decide (o ≤ a)).length : Nat) : α) / (obs.length : α)
+
+/-! ### BetaBinomial -/
+
+/-- rising factorial `a (a+1) … (a+k−1)` -/
+def rising (a : α) : Nat → α
+  | 0 => 1
+  | k + 1 => rising a k * (a + (k : α))
+
+/-- `binom(n,k) * beta(k+a, n−k+b) / beta(a,b)` written through rising factorials
+    (`B(a+k, b+n−k)/B(a,b) = a^(k) b^(n−k) / (a+b)^(n)`): a rational function of `a, b`. -/
+def bbPdf (n : Nat) (a b : α) (k : Nat) : α :=
+  ((QE.C16.chooseFast n k : Nat) : α) * rising a k * rising b (n - k) / rising (a + b) n
+
+def bbPdfList (n : Nat) (a b : α) : List α := (List.range (n + 1)).map (bbPdf n a b)
+
+/-- `n * a / (a + b)` -/
+def bbMean (n : Nat) (a b : α) : α := (n : α) * a / (a + b)
+
+/-- `n*a*b*(a+b+n) / ((a+b)**2 * (a+b+1))` -/
+def bbVar (n : Nat) (a b : α) : α :=
+  (n : α) * a * b * (a + b + (n : α)) / ((a + b) * (a + b) * (a + b + 1))
+
+/-- `t1 = (a+b+2n)(b−a)/(a+b+2)` of `skew` -/
+def bbSkewT1 (n : Nat) (a b : α) : α :=
+  (a + b + (1 + 1) * (n : α)) * (b - a) / (a + b + (1 + 1))
+
+/-- the radicand of `t2 = sqrt((1+a+b)/(n a b (n+a+b)))` -/
+def bbSkewT2sq (n : Nat) (a b : α) : α :=
+  (1 + a + b) / ((n : α) * a * b * ((n : α) + a + b))
+
+/-- `skew²` (the square root itself is not modelled) -/
+def bbSkewSq (n : Nat) (a b : α) : α := bbSkewT1 n a b * bbSkewT1 n a b * bbSkewT2sq n a b
+
+/-- k-th raw moment of the pdf -/
+def bbMoment (n : Nat) (a b : α) (r : Nat) : α :=
+  ((List.range (n + 1)).map fun (k : Nat) => (List.replicate r (k : α)).foldl (· * ·) 1 * bbPdf n a b k).sum
+
+/-! ### ARMA -/
+
+/-- `set_params`: `ma_poly = (1, θ)`, `ar_poly = (1, −φ)` padded with zeros up to `len(ma_poly)` when
+    shorter. -/
+def armaPolys (phi theta : List α) : List α × List α :=
+  let ma := 1 :: theta
+  let ar0 := 1 :: phi.map (fun x => -x)
+  let ar := if ar0.length < ma.length then ar0 ++ List.replicate (ma.length - ar0.length) 0 else ar0
+  (ma, ar)
+
+/-- the system handed to `dimpulse`/`dlsim`: `ma_poly` padded with zeros up to `len(ar_poly)` -/
+def impulsePolys (phi theta : List α) : List α × List α :=
+  let p := armaPolys phi theta
+  (p.1 ++ List.replicate (p.2.length - p.1.length) 0, p.2)
+
+/-- generic "history" recursion: element `k` is `step (elements 0..k−1) k` -/
+def unfoldHist (step : List α → Nat → α) : Nat → List α
+  | 0 => []
+  | n + 1 => unfoldHist step n ++ [step (unfoldHist step n) n]
+
+/-- coefficient `k` of the power series `b(x)/a(x)` from the earlier coefficients `hs`:
+    `(b_k − Σ_{i=1..k} a_i h_{k−i}) / a_0` -/
+def divStep (b a : List α) (hs : List α) (k : Nat) : α :=
+  (b.getD k 0 - ((List.range k).map fun i => a.getD (i + 1) 0 * hs.getD (k - 1 - i) 0).sum) / a.getD 0 0
+
+/-- first `N` coefficients of `b(x)/a(x)` -/
+def serDiv (b a : List α) (N : Nat) : List α := unfoldHist (divStep b a) N
+
+/-- What SciPy means by the impulse response of the discrete transfer function `(num, den, dt)`:
+    both lists are coefficients in *descending powers of z*, so `H(z) = z^{-(d−m)} · num(z⁻¹)/den(z⁻¹)`
+    with `d+1 = len den`, `m+1 = len num`: a numerator shorter than the denominator is a delay.
+    `none` = "Improper transfer function" (`len num > len den`). -/
+def tfImpulse (num den : List α) (N : Nat) : Option (List α) :=
+  if den.length < num.length then none
+  else some (serDiv (List.replicate (den.length - num.length) 0 ++ num) den N)
+
+/-- `ARMA.impulse_response(N)`: `dimpulse(sys, n=max(N, 2))` truncated to `[:N]` -/
+def impulseResponse (phi theta : List α) (N : Nat) : Option (List α) :=
+  let p := impulsePolys phi theta
+  (tfImpulse p.1 p.2 (max N 2)).map (List.take N)
+
+/-- the impulse response as it was before the repair of F6 (`ma_poly` not padded): kept for the
+    theorem that explains the defect. -/
+def impulseResponseUnpadded (phi theta : List α) (N : Nat) : Option (List α) :=
+  let p := armaPolys phi theta
+  tfImpulse p.1 p.2 N
+
+/-- the MA(∞) coefficients by the ARMA recursion:
+    `ψ_0 = 1`, `ψ_j = θ_j + Σ_{i=1..j} φ_i ψ_{j−i}` (`θ_j = 0` for `j > q`, `φ_i = 0` for `i > p`). -/
+def psiStep (phi theta : List α) (hs : List α) (j : Nat) : α :=
+  if j = 0 then 1
+  else theta.getD (j - 1) 0 + ((List.range j).map fun i => phi.getD i 0 * hs.getD (j - 1 - i) 0).sum
+
+def psi (phi theta : List α) (N : Nat) : List α := unfoldHist (psiStep phi theta) N
+
+/-- `ARMA.simulation` with the shocks `eps` given: `dlsim` of the same padded system driven by `u = σ·eps`,
+    i.e. the convolution `x_t = Σ_{j≤t} h_j u_{t−j}` with `h` the impulse response -/
+def simulate (phi theta : List α) (sigma : α) (eps : List α) : Option (List α) :=
+  (impulseResponse phi theta eps.length).map fun hh =>
+    (List.range eps.length).map fun t =>
+      ((List.range (t + 1)).map fun j => hh.getD j 0 * (sigma * eps.getD (t - j) 0)).sum
+
+/-- truncated autocovariance `σ² Σ_{j<J} ψ_j ψ_{j+k}` -/
+def acovTrunc (phi theta : List α) (sigma : α) (k J : Nat) : α :=
+  let ps := psi phi theta (J + k)
+  sigma * sigma * ((List.range J).map fun j => ps.getD j 0 * ps.getD (j + k) 0).sum
+
+/-! complex numbers as pairs, for `freqz` at an exact point of the unit circle -/
+
+def cmul (x y : α × α) : α × α := (x.1 * y.1 - x.2 * y.2, x.1 * y.2 + x.2 * y.1)
+def cadd (x y : α × α) : α × α := (x.1 + y.1, x.2 + y.2)
+def normSq (x : α × α) : α := x.1 * x.1 + x.2 * x.2
+
+/-- `Σ_k coef[k] z^k` (Horner) -/
+def polyEvalC (coef : List α) (z : α × α) : α × α :=
+  coef.foldr (fun c acc => cadd (c, 0) (cmul z acc)) (0, 0)
+
+/-- `spectral_density` at the frequency `w` with `(cos w, sin w) = (c, s)`:
+    `h = ma(e^{-iw}) / ar(e^{-iw})`, `spect = h·conj(h)·σ²`. -/
+def specDens (phi theta : List α) (sigma c s : α) : α :=
+  let p := armaPolys phi theta
+  sigma * sigma * normSq (polyEvalC p.1 (c, -s)) / normSq (polyEvalC p.2 (c, -s))
+
+/-! ### hamilton_filter -/
+
+/-- `X = ones((T−p−h+1, p+1)); X[:, j] = y[p−j : T−h−j+1]` -/
+def hamX (y : List α) (h p : Nat) : M α :=
+  M.tab (y.length + 1 - p - h) (p + 1) fun t j => if j = 0 then 1 else y.getD (p - j + t) 0
+
+/-- `y[p+h−1 : T]` as a column -/
+def hamTarget (y : List α) (h p : Nat) : M α :=
+  M.tab (y.length + 1 - p - h) 1 fun t _ => y.getD (p + h - 1 + t) 0
+
+/-- `X @ b` for a coefficient column `b` -/
+def hamFit (y : List α) (h p : Nat) (b : M α) : List α :=
+  (List.range (y.length + 1 - p - h)).map fun t => (MatAlg.mmul (hamX y h p) b).get t 0
+
+/-- with `p`: `(cycle, trend)`; `none` entries are the `nan` prefix of length `p+h−1`. -/
+def hamiltonP (y : List α) (h p : Nat) (b : M α) : List (Option α) × List (Option α) :=
+  let fit := hamFit y h p b
+  let trend : List (Option α) := List.replicate (p + h - 1) none ++ fit.map some
+  let cycle := (List.range y.length).map fun t =>
+    match trend.getD t none with
+    | none => none
+    | some v => some (y.getD t 0 - v)
+  (cycle, trend)
+
+/-- without `p`: `cycle = nan^h ++ (y[h:T] − y[0:T−h])`, `trend = y − cycle` -/
+def hamiltonNoP (y : List α) (h : Nat) : List (Option α) × List (Option α) :=
+  let cycle : List (Option α) :=
+    List.replicate h none ++ (List.range (y.length - h)).map fun t => some (y.getD (h + t) 0 - y.getD t 0)
+  let trend := (List.range cycle.length).map fun t =>
+    match cycle.getD t none with
+    | none => none
+    | some c => some (y.getD t 0 - c)
+  (cycle, trend)
+
+/-! ### periodogram / smooth -/
+
+/-- indices `j` of the Fourier frequencies `2πj/n` kept by `periodogram` (`[: int(n/2)+1]`) -/
+def pgramIdx (n : Nat) : List Nat := List.range (min n (n / 2 + 1))
+
+/-- `np.bartlett(M)`: `n = arange(1−M, M, 2)`; `where(n ≤ 0, 1 + n/(M−1), 1 − n/(M−1))` -/
+def bartlett (m : Nat) : List α :=
+  if m = 1 then [1] else
+  (List.range m).map fun i =>
+    -- n = 1 − M + 2 i
+    if 2 * i + 1 ≤ m then 1 - (((m - 1 - 2 * i : Nat) : α)) / ((m - 1 : Nat) : α)
+    else 1 - (((2 * i + 1 - m : Nat) : α)) / ((m - 1 : Nat) : α)
+
+def flatWin (m : Nat) : List α := List.replicate m 1
+
+/-- `np.convolve(w, s, mode='valid')` for `len w ≤ len s`:
+    `out[i] = Σ_k w[k] s[i + len w − 1 − k]` -/
+def convolveValid (w s : List α) : List α :=
+  (List.range (s.length + 1 - w.length)).map fun i =>
+    ((List.range w.length).map fun k => w.getD k 0 * s.getD (i + w.length - 1 - k) 0).sum
+
+/-- the reflected extension `concatenate((x[:k][::-1], x, x[-k:][::-1]))` -/
+def reflectPad (x : List α) (k : Nat) : List α :=
+  (x.take k).reverse ++ x ++ (if k = 0 then x else x.drop (x.length - k)).reverse
+
+inductive SmoothErr | tooShort | tooSmall
+deriving Repr
+
+/-- `smooth(x, window_len, window)` with the window given as a function of its length -/
+def smooth (win : Nat → List α) (x : List α) (windowLen : Nat) : Except SmoothErr (List α) :=
+  if x.length < windowLen then .error .tooShort
+  else if windowLen < 3 then .error .tooSmall
+  else
+    let wl := if windowLen % 2 = 0 then windowLen + 1 else windowLen
+    let k := wl / 2
+    let s := reflectPad x k
+    let w := win wl
+    let tot := w.sum
+    .ok (convolveValid (w.map fun v => v / tot) s)
+
+end arith
+
+/-! ### line protocol (instance `Rat`) -/
+
+def showOpt (o : Option Rat) : String :=
+  match o with
+  | none => "nan"
+  | some q => showRat q
+
+def ratCol (l : List Rat) : M Rat := M.tab l.length 1 fun i _ => l.getD i 0
+
+/-- exact OLS coefficients of `hamilton_filter` (normal equations solved by Gauss–Jordan) -/
+def hamOLS (y : List Rat) (h p : Nat) : Option (M Rat) :=
+  let X := hamX y h p
+  let Xt := MatAlg.mT X
+  MatAlg.solve (MatAlg.mmul Xt X) (MatAlg.mmul Xt (hamTarget y h p))
+
+section floatInst
+/-- `Float` has no `Zero`/`One`/`NatCast` in core; `Float.ofNat` is exact below 2^53. -/
+local instance : Zero Float := ⟨0.0⟩
+local instance : One Float := ⟨1.0⟩
+local instance : NatCast Float := ⟨Float.ofNat⟩
+
+/-- `lorenz_curve` at `Float` (trace fidelity: same operation order as the Numba loop ⇒ same bits) -/
+def lorenzFloat (y : List Float) : List Float × List Float := (lorenzPeople y, lorenzIncome y)
+
+/-- `hamilton_filter(y, h)` (no `p`) at `Float` -/
+def hamiltonNoPFloat (y : List Float) (h : Nat) : List (Option Float) × List (Option Float) := hamiltonNoP y h
+end floatInst
+
+def showOptF (o : Option Float) : String :=
+  match o with
+  | none => "nan"
+  | some f => showFloatBits f
+
+def handle (toks : List String) : String :=
+  match toks with
+  | "lorenz_float" :: r =>
+    match kvFloats r "y" with
+    | some y =>
+      let (p, i) := lorenzFloat y
+      showList showFloatBits p ++ "|" ++ showList showFloatBits i
+    | none => "bad-op"
+  | "hamilton_float" :: r =>
+    match kvFloats r "y", kvNat r "h" with
+    | some y, some h =>
+      if y.length < h then "bad-op" else
+      let (c, t) := hamiltonNoPFloat y h
+      showList showOptF c ++ "|" ++ showList showOptF t
+    | _, _ => "bad-op"
+  | "gini" :: r =>
+    match kvRats r "y" with
+    | some y => if giniDen y == 0 then "ERR:ZeroDivisionError" else showRat (gini y)
+    | none => "bad-op"
+  | "lorenz" :: r =>
+    match kvRats r "y" with
+    | some y =>
+      if y.length ≠ 0 ∧ (lorenzS y).getD y.length 0 == 0 then "ERR:ZeroDivisionError"
+      else showList showRat (lorenzPeople y) ++ "|" ++ showList showRat (lorenzIncome y)
+           ++ "|" ++ showRat (lorenzArea y)
+    | none => "bad-op"
+  | "ecdf" :: r =>
+    match kvRats r "obs", kvRats r "x" with
+    | some obs, some x => if obs.isEmpty then "bad-op" else showList showRat (x.map (ecdf obs))
+    | _, _ => "bad-op"
+  | "bb" :: r =>
+    match kvNat r "n", kvRat r "a", kvRat r "b" with
+    | some n, some a, some b =>
+      if a ≤ 0 ∨ b ≤ 0 then "bad-op" else
+      let t1 := bbSkewT1 n a b
+      showRat (bbMean n a b) ++ "|" ++ showRat (bbVar n a b) ++ "|" ++
+      (if n = 0 then "nan" else showRat (bbSkewSq n a b)) ++ "|" ++
+      (if t1 < 0 then "-1" else if 0 < t1 then "1" else "0") ++ "|" ++
+      showList showRat (bbPdfList n a b)
+    | _, _, _ => "bad-op"
+  | "polys" :: r =>
+    match kvRats r "phi", kvRats r "theta" with
+    | some phi, some theta =>
+      let p := armaPolys phi theta
+      showList showRat p.1 ++ "|" ++ showList showRat p.2
+    | _, _ => "bad-op"
+  | "impulse" :: r =>
+    match kvRats r "phi", kvRats r "theta", kvNat r "n" with
+    | some phi, some theta, some n =>
+      match impulseResponse phi theta n with
+      | some l => showList showRat l
+      | none => "ERR:ValueError"
+    | _, _, _ => "bad-op"
+  | "impulse_unpadded" :: r =>
+    match kvRats r "phi", kvRats r "theta", kvNat r "n" with
+    | some phi, some theta, some n =>
+      match impulseResponseUnpadded phi theta n with
+      | some l => showList showRat l
+      | none => "ERR:ValueError"
+    | _, _, _ => "bad-op"
+  | "psi" :: r =>
+    match kvRats r "phi", kvRats r "theta", kvNat r "n" with
+    | some phi, some theta, some n => showList showRat (psi phi theta n)
+    | _, _, _ => "bad-op"
+  | "acov" :: r =>
+    match kvRats r "phi", kvRats r "theta", kvRat r "sigma", kvNat r "k", kvNat r "J" with
+    | some phi, some theta, some sg, some k, some J => showRat (acovTrunc phi theta sg k J)
+    | _, _, _, _, _ => "bad-op"
+  | "specdens" :: r =>
+    match kvRats r "phi", kvRats r "theta", kvRat r "sigma", kvRats r "c", kvRats r "s" with
+    | some phi, some theta, some sg, some cs, some ss =>
+      if cs.length ≠ ss.length then "bad-op" else
+      showList showRat ((cs.zip ss).map fun (c, s) => specDens phi theta sg c s)
+    | _, _, _, _, _ => "bad-op"
+  | "hamilton" :: r =>
+    match kvRats r "y", kvNat r "h", kv r "p" with
+    | some y, some h, some ps =>
+      if ps = "none" then
+        if y.length < h then "bad-op" else
+        let (c, t) := hamiltonNoP y h
+        showList showOpt c ++ "|" ++ showList showOpt t
+      else
+        match ps.toNat? with
+        | none => "bad-op"
+        | some p =>
+          if y.length + 1 ≤ p + h ∨ p + h = 0 then "bad-op" else
+          match hamOLS y h p with
+          | none => "ERR:LinAlgError"
+          | some b =>
+            let (c, t) := hamiltonP y h p b
+            showList showOpt c ++ "|" ++ showList showOpt t
+    | _, _, _ => "bad-op"
+  | "simulate" :: r =>
+    match kvRats r "phi", kvRats r "theta", kvRat r "sigma", kvRats r "eps" with
+    | some phi, some theta, some sg, some eps =>
+      match simulate phi theta sg eps with
+      | some l => showList showRat l
+      | none => "ERR:ValueError"
+    | _, _, _, _ => "bad-op"
+  | "shorrocks" :: r =>
+    match kvRatMat r "A" with
+    | some A =>
+      if A.length < 2 ∨ A.any (fun row => row.length ≠ (A.headD []).length) then "bad-op" else
+      match shorrocks A with
+      | some v => showRat v
+      | none => "ERR:ValueError"
+    | none => "bad-op"
+  | "ranksize" :: r =>
+    match kvRats r "data", (kv r "c").bind parseFloat? with
+    | some data, some c =>
+      -- `int(len(w) * c)`: the product is a *double* product (50 * 0.3 rounds to 15.0), then truncation
+      if c < 0 ∨ c.isNaN ∨ c.isInf then "bad-op" else
+      let k := (Float.ofNat data.length * c).floor.toUInt64.toNat
+      let sz := rankSize data k
+      showList toString ((List.range sz.length).map (· + 1)) ++ "|" ++ showList showRat sz
+    | _, _ => "bad-op"
+  | "pgram" :: r =>
+    match kvNat r "n" with
+    | some n => showList toString (pgramIdx n)
+    | none => "bad-op"
+  | "smooth" :: r =>
+    match kvRats r "x", kvNat r "wl", kv r "window" with
+    | some x, some wl, some wn =>
+      let res :=
+        if wn = "flat" then some (smooth flatWin x wl)
+        else if wn = "bartlett" then some (smooth bartlett x wl)
+        else none
+      match res with
+      | none => "bad-op"
+      | some (.ok l) => showList showRat l
+      | some (.error .tooShort) => "ERR:ValueError:short"
+      | some (.error .tooSmall) => "ERR:ValueError:small"
+    | _, _, _ => "bad-op"
+  | _ => "bad-op"
 
 end QE.C19
